@@ -42,9 +42,12 @@ ASSUMPTIONS = ["load samples are integers (tolerance comparisons exact); sequenc
                "(pvx/harness/c05.py hcm_oracle); it was written from the same reading of the guideline as the code",
                "multi-point: load histories proportional with factors from {1/2, 2, 3}, node ids non-contiguous",
                "multi-point with a history fed in several process() calls: any integer samples (no reversal assumption), load "
-               "steps numbered consecutively across the calls, last call flushed; compared with every point processed alone "
-               "through the same calls (two runs of the real code, no oracle)"]
-OUTSIDE = "sequences longer than the bound; laws that are not functions of the load (path dependent)"
+               "steps numbered consecutively across the calls (a label is not used twice within the fed history), last call "
+               "flushed; compared with every point processed alone through the same calls (two runs of the real code, no oracle)",
+               "multi-point, both HCM passes on any integer samples with load step labels in any order (descending, unordered), "
+               "compared with every point processed alone"]
+OUTSIDE = ("sequences longer than the bound; laws that are not functions of the load (path dependent); multi-point histories "
+           "fed in several calls that re-use load step labels (see DESIGN.md section 8, observations)")
 RULE = ("one evaluation = one explored path (order type of the integer loads and of the law's stress/strain values); "
         "distinct = distinct (case, flags/run pattern of hystereses); non-trivial = at least one recorded hysteresis")
 LABELS = ["rows.loads", "rows.stress_strain", "rows.derived", "rows.flags", "rows.LF", "strain_values", "multipoint_equals_single",
@@ -86,6 +89,11 @@ def cases(tier):
             c = {"kind": "multi", "n": n, "factors": fac, "_weight": 9 ** n * 3}
             c["_split"] = (4 if len(fac) == 1 else 5) if n == 2 else 8
             out.append(c)
+    # several points at once, any samples (non-reversals, plateaus), both HCM passes, load step labels in any order
+    for steps in (([2, 1, 0],) if q else ([2, 1, 0], [5, 9, 7], [0, 1, 2])):
+        out.append({"kind": "multi_chunked", "hcm": True, "n": 3, "steps": steps, "factors": [0.5], "_weight": 9 ** 3, "_split": 5})
+    if not q:
+        out.append({"kind": "multi_chunked", "hcm": True, "n": 4, "steps": [3, 0, 2, 1], "factors": [0.5], "_weight": 9 ** 4, "_split": 7})
     # several points at once with load step labels that do not ascend
     out.append({"kind": "multi", "n": 2, "factors": [0.5], "steps": [7, 3], "_weight": 9 ** 2 * 3, "_split": 4})
     if not q:
@@ -392,8 +400,10 @@ def _check_rows(ctx, coll, rows, point=None, tag=""):
 def _run_chunked(ctx, case):
     """several points at once == every point alone, when the history arrives in two process() calls (any samples:
     plateaus, non-reversals and a chunk border inside a plateau included).  Two runs of the real code are compared."""
-    n, cuts, factors = case["n"], list(case["cuts"]), [1.0] + list(case["factors"])
+    n, cuts, factors = case["n"], list(case.get("cuts", [])), [1.0] + list(case["factors"])
     xs = [ctx.int("x%d" % i) for i in range(n)]
+    if case.get("hcm"):
+        ctx.assume(sym_or(*[xs[i] != xs[0] for i in range(1, n)]))       # at least two distinct values (C04's quantifier)
     ctx.hint(sym_and(*[sym_and(x <= 8, x >= -8) for x in xs]))
     if case.get("plateau_at_cut"):
         ctx.assume(xs[cuts[0] - 2] == xs[cuts[0] - 1])           # sub-family: the first chunk ends inside a plateau
@@ -404,7 +414,9 @@ def _run_chunked(ctx, case):
     nodes = [7, 9, 4][:len(factors)]
 
     def series(lo, hi):
-        idx = pd.MultiIndex.from_product([range(lo, hi), nodes], names=["load_step", "node_id"])
+        # load steps numbered consecutively across the calls, or (relabel) every call numbers its steps from 0 again
+        steps = range(0, hi - lo) if case.get("relabel") else range(lo, hi)
+        idx = pd.MultiIndex.from_product([steps, nodes], names=["load_step", "node_id"])
         vals = []
         for x in xs[lo:hi]:
             vals += [f * x for f in factors]
@@ -414,15 +426,30 @@ def _run_chunked(ctx, case):
         warnings.simplefilter("ignore")
         rec = FKMNonlinearRecorder()
         det = FKMNonlinearDetector(recorder=rec, notch_approximation_law=law)
-        for lo, hi in chunks:
-            det.process(series(lo, hi), flush=(hi == n))
+        if case.get("hcm"):
+            # the two HCM passes on the whole history (any samples; load step labels as given, not necessarily ascending)
+            idx = pd.MultiIndex.from_product([case["steps"], nodes], names=["load_step", "node_id"])
+            vals = []
+            for x in xs:
+                vals += [f * x for f in factors]
+            whole = pd.Series(np.array(vals, dtype=dt), index=idx)
+            det.process_hcm_first(whole)
+            det.process_hcm_second(whole)
+        else:
+            for lo, hi in chunks:
+                det.process(series(lo, hi), flush=(hi == n))
         coll = rec.collective
         out = {}
         for j, f in enumerate(factors):
             rec1 = FKMNonlinearRecorder()
             det1 = FKMNonlinearDetector(recorder=rec1, notch_approximation_law=law)
-            for lo, hi in chunks:
-                det1.process(np.array([f * x for x in xs[lo:hi]], dtype=dt), flush=(hi == n))
+            if case.get("hcm"):
+                one = np.array([f * x for x in xs], dtype=dt)
+                det1.process_hcm_first(one)
+                det1.process_hcm_second(one)
+            else:
+                for lo, hi in chunks:
+                    det1.process(np.array([f * x for x in xs[lo:hi]], dtype=dt), flush=(hi == n))
             c1 = rec1.collective
             rows_m, rows_1 = len(_colvals(coll, "run_index", j)), len(_colvals(c1, "run_index"))
             ctx.claim(rows_m == rows_1, "multipoint_equals_single", ("chunked: rows", j, rows_m, rows_1))
